@@ -1,7 +1,8 @@
 (* Properties.v - the property theorems and nothing else.  Every theorem is
    closed by [exact <lemma>] and followed by Print Assumptions. *)
 From NTRIP Require Import Base Bits BitsProofs Crc CrcProofs Time Classify Frame FrameSpec FrameProofs Html Queue QueueProofs ClassifyProofs Retry RetryProofs TimeSpec History WriteProofs EncProofs TimeProofs SegProofs Msm Station StationProofs Range RangeProofs FloatProofs Net Pipe PipeFrames FilterProofs ProdCons MsmSpec MsmProofs MsmRoundtrip DetermProofs.
-From NTRIP Require ConcQueue.
+From NTRIP Require ConcQueue Relay.
+From NTRIP Require Import FloatMore.
 From NTRIPGen Require Import GenConsts.
 From Coq Require Import Reals Floats.
 From Flocq Require Import Core IEEE754.BinarySingleNaN IEEE754.PrimFloat.
@@ -190,6 +191,38 @@ Print Assumptions C19_sanitise.
 
 Example C19_example : sanitise [60; 98; 62]%N = [38; 108; 116; 59; 98; 38; 103; 116; 59]%N.
 Proof. vm_compute. reflexivity. Qed.
+
+(* The relay half (Relay.v): the client-to-server loop pushes every byte of a chunk to the
+   traffic parser and then writes the chunk to the server; the parser (ANY framing state machine)
+   feeds the queue updater.  For all chunk sequences, all capacities >= 1 of the byte and message
+   channels and every schedule: executions are finite, each can be completed to one final
+   configuration and a maximal one IS that configuration; in it the loop has returned, the
+   server has been written exactly the client's chunks in order and unchanged (parsing can delay
+   the relay but neither alters, withholds nor stops it), both channels are empty, and the queue
+   was given exactly the messages sequential framing finds in the relayed bytes. *)
+Theorem C19_relay_every_schedule :
+  forall (B M FS : Type) (fstep : FS -> B -> FS * list M) cap0 cap1 (chunks : list (list B)) (s0 : FS),
+  (1 <= cap0)%nat -> (1 <= cap1)%nat ->
+  exists n, forall m c,
+    steps _ (nstep _ _ _ (Relay.prog B M FS fstep) Relay.sender Relay.receiver (Relay.QDead B M FS)) m
+          (Relay.init B M FS cap0 cap1 chunks s0) c ->
+    (m <= n)%nat /\
+    steps _ (nstep _ _ _ (Relay.prog B M FS fstep) Relay.sender Relay.receiver (Relay.QDead B M FS)) (n - m) c
+          (Relay.fin B M FS fstep cap0 cap1 chunks s0) /\
+    (final_config _ _ _ (Relay.prog B M FS fstep) Relay.sender Relay.receiver (Relay.QDead B M FS) c ->
+     c = Relay.fin B M FS fstep cap0 cap1 chunks s0).
+Proof. exact Relay.relay_every_schedule. Qed.
+Print Assumptions C19_relay_every_schedule.
+
+Theorem C19_relay_final :
+  forall (B M FS : Type) (fstep : FS -> B -> FS * list M) cap0 cap1 (chunks : list (list B)) (s0 : FS),
+  let f := Relay.fin B M FS fstep cap0 cap1 chunks s0 in
+  Relay.server_writes B M FS f = map (Relay.EvW B M) chunks /\
+  Relay.queue_adds B M FS f = map (Relay.EvQ B M) (fst (Relay.frun B M FS fstep s0 (concat chunks))) /\
+  Relay.prog B M FS fstep (nth 0%nat (procs f) (Relay.QDead B M FS)) = OHalt _ _ _ /\
+  buf (nth 0%nat (chans f) (dchan _)) = [] /\ buf (nth 1%nat (chans f) (dchan _)) = [].
+Proof. exact Relay.fin_shape. Qed.
+Print Assumptions C19_relay_final.
 
 (* ===================== C20 ===================== *)
 (* For every 12-bit message type and the two negative sentinels (4098 values, enumerated
@@ -462,6 +495,31 @@ Theorem C08_range_error : forall S : N, (0 < S < 2 ^ 41)%N ->
   (Rabs (B2R (Prim2B (range_m S)) - exact) <= exact / 2251799813685248)%R.
 Proof. exact range_error. Qed.
 Print Assumptions C08_range_error.
+
+(* The other three binary64 pipelines, for every (constellation, signal) pair of the code's
+   wavelength table that has a frequency (each is an integer number of Hz between 1 and 2 GHz:
+   FloatMore.wavelength_table, by evaluation of the table): relative error at most 2^-53 for the
+   rate in m/s (one rounding) and below 2^-50 for the phase range in cycles (three roundings
+   and the representation error of 299792.458) and the Doppler shift in Hz (four roundings). *)
+Theorem C08_rate_error : forall a : Z, (a <> 0)%Z -> (- 2 ^ 40 < a < 2 ^ 40)%Z ->
+  let exact := (IZR a / 10000)%R in
+  (Rabs (B2R (Prim2B (rate_ms a)) - exact) <= Rabs exact / 9007199254740992)%R.
+Proof. exact rate_error. Qed.
+Print Assumptions C08_rate_error.
+
+Theorem C08_phase_error : forall (c s S : N), freq c s <> 0%float -> (0 < S < 2 ^ 41)%N ->
+  exists F : Z, B2R (Prim2B (freq c s)) = IZR F /\
+    let exact := (IZR (Z.of_N S) / 2147483648 * (IZR F / 1000))%R in
+    (Rabs (B2R (Prim2B (phase_cycles S (wavelength c s))) - exact) <= exact / 1125899906842624)%R.
+Proof. exact phase_error_table. Qed.
+Print Assumptions C08_phase_error.
+
+Theorem C08_doppler_error : forall (c s : N) (a : Z), freq c s <> 0%float -> (a <> 0)%Z -> (- 2 ^ 40 < a < 2 ^ 40)%Z ->
+  exists F : Z, B2R (Prim2B (freq c s)) = IZR F /\
+    let exact := (- (IZR a / 10000 * (IZR F / 299792458)))%R in
+    (Rabs (B2R (Prim2B (doppler a (wavelength c s))) - exact) <= Rabs exact / 1125899906842624)%R.
+Proof. exact doppler_error_table. Qed.
+Print Assumptions C08_doppler_error.
 
 Example C08_example :
   scaled_range 80 512 (-5) = 43218108411%N /\ agg_range4 80 512 7 = agg_range7 80 512 224 /\
